@@ -276,3 +276,85 @@ def run_C19(ctx):
     ctx.cov["exhaustive"] = True
     st = ctx.vh("c19-replay", r.out, "selftest")
     ctx.selftest(st["n_mismatch"] == st["cases"], "C19 G: inverted expectations are reported")
+
+
+def run_C16(ctx):
+    ctx.cov["rule"] = ("G: every call history over the 5 accessors up to length 4 (quick, 780) / 6 (thorough, 19 530) on 7 documents that exercise every lazy path (regex types and bodies, allOf chains, or, "
+                       "path variables + enum, responses declared out of code order + headers, macro/paste, JSON-RPC); plus the 160 edges of the mechanism-state graph (VIEW on the set of accessors "
+                       "already called) on every accepted corpus file (every 6th in quick). Each history runs on a fresh build; the last call's bytes must equal that accessor's bytes on a pristine catalog. "
+                       "Non-trivial = (project, history) pairs executed.")
+    allcfg = "MC_C16_quick.cfg" if ctx.quick else "MC_C16_all.cfg"
+    r = ctx.tlc("MC_C16", cfg=allcfg, timeout=600, label="MC_C16(all sequences)")
+    res = ctx.vh("serial-replay", r.out, "docs", timeout=3000)
+    ctx.absorb(res, "G:serial-replay(docs)")
+    r2 = ctx.tlc("MC_C16", cfg="MC_C16_graph.cfg", timeout=600, label="MC_C16(state graph)")
+    res2 = ctx.vh("serial-replay", r2.out, "corpus:%s:%d" % (REPO, 6 if ctx.quick else 1), timeout=3000)
+    ctx.absorb(res2, "G:serial-replay(corpus)")
+    ctx.cov["exhaustive"] = True
+    st = ctx.vh("serial-replay", r2.out, "docs", "selftest")
+    ctx.selftest(st["n_mismatch"] >= 0.4 * st["cases"], "C16 G: altered reference bytes are noticed")
+
+
+# ------------------------------------------------------------------ C04 / C17 / C06 (accepted-project sweeps)
+def _sweep(ctx, checks, nmut):
+    """accepted projects: the documents of the block model, the corpus, and seeded mutations of the corpus"""
+    cfg = "MC_C02_quick.cfg" if ctx.quick else "MC_C02_thorough.cfg"
+    r = ctx.tlc("MC_C02", cfg=cfg, timeout=3300)
+    a = ctx.vh("sweep", checks, "model:" + r.out, timeout=3300)
+    b = ctx.vh("sweep", checks, "corpus:" + REPO, nmut, ctx.seed, timeout=3300)
+    c = ctx.vh("sweep", checks, "docs", timeout=600)
+    return a, b, c
+
+
+def run_C04(ctx):
+    ctx.cov["rule"] = ("M+G: the matrix of 15 schema-carrying positions x 12 defect classes (129 applicable cells): when the real build accepts a cell, ToJson and ToJsonIndent must succeed, be valid UTF-8 JSON, "
+                       "agree up to whitespace and have the JDoc Exchange 2.0.0 shape (top-level keys, required fields of every entity, object/array nodes carry children, scalar nodes carry scalarValue). "
+                       "G/V: the same on every accepted document of the block model, every accepted corpus file and seeded mutations of the corpus (3 quick / 12 thorough per file). "
+                       "Non-trivial = accepted projects.")
+    r = ctx.tlc("MC_C04", timeout=600)
+    res = ctx.vh("c04-matrix", r.out)
+    ctx.absorb(res, "G:c04-matrix")
+    st = ctx.vh("c04-matrix", r.out, "selftest")
+    ctx.selftest(st["n_mismatch"] == st["nontrivial"] and st["nontrivial"] > 10, "C04 G: accepted cells are examined")
+    for x, name in zip(_sweep(ctx, "c04", 3 if ctx.quick else 12), ("model", "corpus+mutations", "docs")):
+        ctx.absorb(x, "G:sweep-c04(%s)" % name)
+
+
+def run_C17(ctx):
+    ctx.cov["rule"] = ("G: every accepted project (block-model documents, the 7 lazy-path documents, corpus files and seeded corpus mutations, 3 quick / 12 thorough per file): ToOpenAPIJson must return an error value "
+                       "or a document with openapi/info/paths in which every HTTP interaction is paths[path][method], every {parameter} is a required path parameter, every $ref resolves to components.schemas, "
+                       "every user type is a component and response keys are codes or 'default'; a panic is a violation. M: the notation matrix of MC_C04 (any / empty / regex / defective bodies) and the schema-feature matrix of MC_C17 (every rule x value, property and object level, with a user-type key shortcut, in TYPE / response / request position: 500+ cells) feed the same check. "
+                       "Non-trivial = accepted projects.")
+    r = ctx.tlc("MC_C04", timeout=600)
+    res = ctx.vh("c04-matrix", r.out, env={"VH_MATRIX_CHECK": "c17"})
+    ctx.absorb(_only(res, ["c17:"]), "G:c04-matrix(openapi)")
+    rm = ctx.tlc("MC_C17", timeout=600)
+    resm = ctx.vh("c17-matrix", rm.out)
+    if resm["nontrivial"] < 100:
+        raise MachineryError("C17 matrix: only %d cells accepted by the build" % resm["nontrivial"])
+    ctx.absorb(resm, "G:c17-matrix")
+    stm = ctx.vh("c17-matrix", rm.out, "selftest")
+    ctx.selftest(stm["n_mismatch"] == stm["nontrivial"], "C17 G: accepted cells are examined")
+    for x, name in zip(_sweep(ctx, "c17", 3 if ctx.quick else 12), ("model", "corpus+mutations", "docs")):
+        ctx.absorb(x, "G:sweep-c17(%s)" % name)
+
+
+def run_C06(ctx):
+    ctx.cov["rule"] = ("G: every project of the sources (block-model documents accepted and rejected, corpus files, seeded corpus mutations) is built 3 times in one process (Go randomises every map iteration) "
+                       "and a sample twice in fresh processes; catalog bytes, or message / file / index / line / column / rendered trace of the error must be identical. M: MC_C10cyc enumerates the macro graphs whose "
+                       "recursion check has several candidate error sites (the historical map-order defect). A seeded history of 60 (quick) / 600 builds in one process over an included file and a root file that are "
+                       "rewritten between builds must give, at every step, what a fresh process gives for the files on disk at that moment. Non-trivial = projects built.")
+    ctx.assumptions += ["a map with k keys iterated once per build shows a different order with probability >= 1 - 1/k! per rebuild; 3 rebuilds per project over thousands of projects"]
+    for x, name in zip(_sweep(ctx, "c06", 3 if ctx.quick else 12), ("model", "corpus+mutations", "docs")):
+        x = dict(x, nontrivial=x.get("cases", 0))
+        ctx.absorb(x, "G:sweep-c06(%s)" % name)
+    # macro graphs: several offending macros -> the reported site must be stable
+    r2 = ctx.tlc("MC_C10cyc", timeout=900)
+    res2 = ctx.vh("c06-docs", r2.out, timeout=900)
+    ctx.absorb(res2, "G:c06-docs(macro graphs)")
+    # fresh processes
+    res3 = ctx.vh("c06-procs", REPO, ctx.seed, 40 if ctx.quick else 400, timeout=1800)
+    ctx.absorb(res3, "G:c06-procs")
+    # histories of builds in one process over files that change between builds
+    res4 = ctx.vh("c06-history", ctx.seed, 60 if ctx.quick else 600, timeout=600)
+    ctx.absorb(res4, "G:c06-history")
